@@ -3,4 +3,4 @@ CONSTANTS
   MaxEntry = 16384
   BufSize = 1638400
   DepthLimit = 100
-  EmptyFileSeek = {"ioerr", "tooEarly"}
+  EmptyGuard = TRUE
